@@ -47,7 +47,8 @@ COLUMN_PROFILE = {
     "items": ["col", "alias", "func", "arith", "case", "cast", "window", "literal", "star", "qstar", "coalesce2", "window_order", "nested_func", "pgcast"],
     "tail": ["none"],
     "nitems": [1, 2, 3],
-    "colref_style": ["unq", "qual"],
+    "colref_style": ["unq", "qual", "fullqual"],
+    "alias_reuse": True,
 }
 
 
@@ -61,14 +62,26 @@ class Ctx:
         self.nc = 0
         self.nx = 0
         self.ctes: dict[str, list] = {}  # name -> exposed column names (None = anything / star)
+        self.all_aliases: list[str] = []
+        self.scopes: list[set] = []
 
     def base(self):
         self.nt += 1
         return f"t{self.nt}"
 
-    def alias(self):
-        self.na += 1
-        return f"a{self.na}"
+    def alias(self, path=None):
+        """a fresh alias, or - as the last alternative - an alias already used in another (finished or enclosing)
+        FROM scope: legal SQL, and exactly where identity-by-name goes wrong"""
+        reusable = [a for a in self.all_aliases if a not in self.scopes[-1]] if (path and self.p.get("alias_reuse") and self.scopes) else []
+        if reusable and self.ch.choose(path + ".alias_reuse", 2) == 1:
+            a = reusable[0]
+        else:
+            self.na += 1
+            a = f"a{self.na}"
+            self.all_aliases.append(a)
+        if self.scopes:
+            self.scopes[-1].add(a)
+        return a
 
     def xname(self):
         self.nx += 1
@@ -88,14 +101,25 @@ def T(name, schema=None):
 # ------------------------------------------------------------------------------------------------
 # exposed column names of a relation (well-formedness of generated references)
 # ------------------------------------------------------------------------------------------------
-def out_names(q):
-    """output column names of a query as the generator sees them; None when a star makes them open"""
+def out_names(q, ctes=None):
+    """output column names of a query as the generator sees them; None when a star over a base table leaves them open"""
+    ctes = ctes or {}
     names = []
-    for it in q["branches"][0]["items"]:
+    sel = q["branches"][0]
+    for it in sel["items"]:
         e = it["e"]
         if e[0] == "star":
-            return None
-        names.append(it["alias"] or (e[2] if e[0] == "col" else None))
+            for r in sel["from"]["rels"]:
+                if e[1] is not None and e[1] != (r.get("alias") or (r["t"]["n"] if r["k"] == "base" else r.get("name"))):
+                    continue
+                if r["k"] == "base":
+                    return None
+                sub = out_names(r["q"], ctes) if r["k"] == "derived" else ctes.get(r["name"])
+                if sub is None:
+                    return None
+                names += sub
+        else:
+            names.append(it["alias"] or (e[2] if e[0] == "col" else None))
     return names
 
 
@@ -123,7 +147,7 @@ def gen_rel(ctx: Ctx, depth: int, path: str):
         return {"k": "base", "t": T(ctx.base(), "s1"), "alias": ctx.alias(), "as": True}
     if k == "derived":
         q = {"ctes": [], "branches": [gen_select(ctx, depth - 1, path + ".sub")], "ops": []}
-        return {"k": "derived", "q": q, "alias": ctx.alias()}
+        return {"k": "derived", "q": q, "alias": ctx.alias(path)}
     if k == "derived_star":
         sel = {"items": [{"e": ["star", None], "alias": None}], "from": {"shape": "one", "rels": [{"k": "base", "t": T(ctx.base()), "alias": None, "as": False}]}, "where": None, "tail": None}
         return {"k": "derived", "q": {"ctes": [], "branches": [sel], "ops": []}, "alias": ctx.alias()}
@@ -155,7 +179,9 @@ SHAPE_ARITY = {"one": 1, "join": 2, "comma": 2, "join3": 3, "left_using": 2, "cr
 
 def gen_from(ctx: Ctx, depth: int, path: str):
     shape = ctx.alts("from", path)
+    ctx.scopes.append(set())
     rels = [gen_rel(ctx, depth, f"{path}.rel[{i}]") for i in range(SHAPE_ARITY[shape])]
+    ctx.scopes.pop()
     return {"shape": shape, "rels": rels}
 
 
@@ -164,7 +190,7 @@ def rel_info(ctx: Ctx, r):
     if r["k"] == "base":
         return (r["alias"] or r["t"]["n"], None)
     if r["k"] == "derived":
-        return (r["alias"], out_names(r["q"]))
+        return (r["alias"], out_names(r["q"], ctx.ctes))
     return (r["alias"] or r["name"], ctx.ctes[r["name"]])
 
 
@@ -175,6 +201,10 @@ def gen_colref(ctx: Ctx, rels, path: str):
     ctx.nc += 1
     usable = [n for n in (names or []) if n]
     name = usable[0] if usable else f"c{ctx.nc}"
+    if style == "fullqual":  # schema.table.column where the relation is an unaliased schema-qualified table
+        if r["k"] == "base" and r["t"]["s"] and not r["alias"]:
+            qual = f"{r['t']['s']}.{r['t']['n']}"
+        style = "qual"
     return ["col", qual if style == "qual" else None, name]
 
 
@@ -266,24 +296,30 @@ def gen_query(ctx: Ctx, depth: int, path: str, kinds_filter=None):
     if k in ("union", "union3"):
         b = [gen_select(ctx, depth, path + ".b[0]")]
         star = _has_star(b[0])
+        if star:
+            # a star fixes nothing positionally; the only well-defined form is `SELECT * FROM <one base table>` in every branch
+            f0 = b[0]["from"]
+            if f0["shape"] == "one" and f0["rels"][0]["k"] == "base":
+                b[0]["items"] = [{"e": ["star", None], "alias": None}]
+            else:
+                b[0]["items"] = [{"e": gen_colref(ctx, f0["rels"], path + ".b[0].destar"), "alias": None}]
+                star = False
         ops = ["UNION ALL"] if k == "union" else ["UNION", "UNION ALL"]
         for i in range(1, len(ops) + 1):
             if star:
-                # a star fixes nothing positionally: branches of a set operation over stars are all single stars
-                nb = {"items": [{"e": ["star", None], "alias": None}], "from": gen_from(ctx, depth, f"{path}.b[{i}].from"), "where": None, "tail": None}
+                nb = {"items": [{"e": ["star", None], "alias": None}],
+                      "from": {"shape": "one", "rels": [{"k": "base", "t": T(ctx.base()), "alias": None, "as": False}]}, "where": None, "tail": None}
             else:
                 nb = gen_select(ctx, depth, f"{path}.b[{i}]", arity=len(b[0]["items"]), no_star=True)
             b.append(nb)
-        if star and len(b[0]["items"]) > 1:
-            b[0]["items"] = [{"e": ["star", None], "alias": None}]
         return {"ctes": [], "branches": b, "ops": ops}
     if k == "with_recursive":
         anchor = gen_select(ctx, 0, f"{path}.cte[0]", arity=1, no_star=True)
         name = "cte1"
-        rec = {"items": [{"e": ["col", None, out_names({"branches": [anchor]})[0] or "c1"], "alias": None}],
+        rec = {"items": [{"e": ["col", None, out_names({"branches": [anchor]}, ctx.ctes)[0] or "c1"], "alias": None}],
                "from": {"shape": "one", "rels": [{"k": "cte", "name": name, "alias": None, "quoted": False}]}, "where": None, "tail": None}
         body = {"ctes": [], "branches": [anchor, rec], "ops": ["UNION ALL"]}
-        ctx.ctes[name] = out_names(body)
+        ctx.ctes[name] = out_names(body, ctx.ctes)
         main = gen_select(ctx, depth, path + ".b[0]")
         return {"ctes": [{"name": name, "q": body, "recursive": True}], "branches": [main], "ops": []}
     ctes = []
@@ -292,7 +328,7 @@ def gen_query(ctx: Ctx, depth: int, path: str, kinds_filter=None):
         body = {"ctes": [], "branches": [gen_select(ctx, max(depth - 1, 0), f"{path}.cte[{i}]")], "ops": []}
         name = f"cte{i + 1}"
         ctes.append({"name": name, "q": body})
-        ctx.ctes[name] = out_names(body)
+        ctx.ctes[name] = out_names(body, ctx.ctes)
     main = gen_select(ctx, depth, path + ".b[0]")
     return {"ctes": ctes, "branches": [main], "ops": []}
 
@@ -306,7 +342,7 @@ def gen_statement(ch, profile, depth=2):
         return {"kind": kind, "target": None if kind == "bare" else tgt, "collist": None, "q": q}
     if kind == "insert_cols":
         q = gen_query(ctx, depth, "q")
-        names = out_names(q)
+        names = out_names(q, ctx.ctes)
         if names is None:
             return {"kind": "insert", "target": tgt, "collist": None, "q": q}
         return {"kind": "insert", "target": tgt, "collist": [f"k{i}" for i in range(len(names))], "q": q}
@@ -329,7 +365,7 @@ def gen_statement(ch, profile, depth=2):
         else:
             q = {"ctes": [], "branches": [gen_select(ctx, depth - 1, "m.sub")], "ops": []}
             using = {"k": "derived", "q": q, "alias": ctx.alias()}
-            names = [n for n in (out_names(q) or []) if n]
+            names = [n for n in (out_names(q, ctx.ctes) or []) if n]
         c1 = names[0] if names else "c1"
         return {"kind": "merge", "target": tgt, "talias": "tg", "using": using, "key": "id", "update": [["k1", c1]], "insert": [["k1"], [c1]]}
     if kind == "delete":
